@@ -90,6 +90,14 @@ func NewDiskQueue(name string, dataPath string, maxBytesPerFile int64, syncEvery
 		log.Printf("ERROR: diskqueue(%s) failed to retrieveMetaData - %s", d.name, err.Error())
 	}
 
+	// if we did not shut down cleanly, the current write file can hold data beyond
+	// the persisted write position. discard that stale tail now: the reader reads
+	// ahead through a buffer, so it must never see bytes that later writes replace.
+	err = d.truncateWriteFile()
+	if err != nil {
+		log.Printf("ERROR: diskqueue(%s) failed to truncate write file - %s", d.name, err.Error())
+	}
+
 	go d.ioLoop()
 
 	return &d
@@ -404,6 +412,22 @@ func (d *DiskQueue) retrieveMetaData() error {
 	d.nextReadFileNum = d.readFileNum
 	d.nextReadPos = d.readPos
 
+	return nil
+}
+
+// truncateWriteFile cuts the current write file back to the persisted write position
+func (d *DiskQueue) truncateWriteFile() error {
+	fn := d.fileName(d.writeFileNum)
+	fi, err := os.Stat(fn)
+	if err != nil {
+		if os.IsNotExist(err) {
+			return nil
+		}
+		return err
+	}
+	if fi.Size() > d.writePos {
+		return os.Truncate(fn, d.writePos)
+	}
 	return nil
 }
 
